@@ -136,7 +136,7 @@ package schema
 //@   ensures[cursor_cleared] @C08 p.subStreamList[idx] == nil
 //@   ensures[idempotent] @C08 old(p.subStreamList[idx]) == nil ==> p.closedNum == old(p.closedNum) && srcCloses == 0
 //@   ensures[counted_once] @C08 old(p.subStreamList[idx]) != nil ==> p.subStreamList[idx] == nil && p.closedNum == old(p.closedNum) + 1
-//@   ensures[source_closed_by_last] @C19 srcCloses == (old(p.subStreamList[idx]) != nil && old(p.closedNum) + 1 == len(p.subStreamList) ? 1 : 0)
+//@   ensures[source_closed_by_last] @C08,C19 srcCloses == (old(p.subStreamList[idx]) != nil && old(p.closedNum) + 1 == len(p.subStreamList) ? 1 : 0)
 //@   ensures[other_cursors_kept] forall(j int :: 0 <= j && j < len(p.subStreamList) && j != idx ==> p.subStreamList[j] == old(p.subStreamList[j]))
 
 //@ func copyStreamReaders
